@@ -34,6 +34,11 @@ ASSUMPTIONS = [
     'every rank owns >= 1 trajectory (the code raises otherwise; checked as an error case)',
     'distance tables hold small integers, so float64 sums of squares are exact and the PAM cost '
     'comparison is rounding-free',
+    'the distributed PAM sweep itself is not modelled in Lean (only its collectives: cost = striped mean, '
+    'proposal = randind, medoid frames = distribute_frame); it is checked on the implementation by the '
+    'Consistent invariants, cost monotonicity and exact equality with serial PAM under identical proposals',
+    'for inputs outside the property (wrong local array length) only the coarse outcome (length error vs '
+    'success) of assemble_striped_ragged_array is compared with the model',
 ]
 TRUSTED_EXTRA = ['thread-simulated mpi4py stand-in harness/mpi_stub/mpi4py/MPI.py (collectives = '
                  'functions of all ranks\' contributions)']
@@ -508,7 +513,6 @@ def prep_pam(ctx, case):
     off = offsets(L)
     traj_of = lambda gl: int(np.searchsorted(off, gl, side='right') - 1)
     pairs = [(traj_of(gl), int(gl - off[traj_of(gl)])) for gl in c0]
-    ragged = len(set(L)) > 1
 
     def fn(r):
         ids = local_ids(w, L, r)
@@ -526,10 +530,6 @@ def prep_pam(ctx, case):
         ctx.case(case, nontrivial=out.ok, tags=['pam-with-proposals', 'w=%d' % w, 'center-form:' + case['form'],
                                                 'proposals:' + case['props']])
         if not out.ok:
-            if case['form'] == 'flat' and ragged and out.kinds == ['value-error']:
-                ctx.violation('kmedoids under MPI: ctr_ids_mpi raises ValueError for flat global center '
-                              'indices when trajectory lengths differ', case, key='ctr-ids-mpi-flat-ragged')
-                return
             ctx.violation('kmedoids under MPI (warm start, proposals) failed: %s' % out.describe(), case,
                           key=equal_rows_key(w, L, out))
             return
@@ -810,19 +810,11 @@ def prep_convert(ctx, case):
             ctx.disagreement('Model.Mpi.ctrIdsMpi vs ctr_ids_mpi', case)
         # flat global ids
         exp_f = [list(global_to_local(w, L, g)) for g in range(N)]
-        if flat.ok:
-            if any(res != exp_f for res in flat.results):
-                ctx.violation('ctr_ids_mpi(flat ids) maps to the wrong (rank, local) pairs', case)
-            elif mf['intended'].get('ok') != exp_f:
-                ctx.disagreement('Model.Mpi.ctrIdsMpiFlatIntended vs ctr_ids_mpi(flat ids)', case)
-        else:
-            if len(set(L)) > 1 and flat.kinds == ['value-error']:
-                ctx.violation('ctr_ids_mpi raises ValueError for flat global center indices when trajectory '
-                              'lengths differ (np.where on a RaggedArray)', case, key='ctr-ids-mpi-flat-ragged')
-                if 'error' not in mf['asis']:
-                    ctx.disagreement('Model.Mpi.ctrIdsMpiFlat succeeds where the code raises', case)
-            else:
-                ctx.violation('ctr_ids_mpi(flat ids) failed: %s' % flat.describe(), case)
+        if not flat.ok or any(res != exp_f for res in flat.results):
+            ctx.violation('ctr_ids_mpi(flat global ids) does not give the (rank, local) pairs of the frames: %s'
+                          % flat.describe(), case)
+        elif mf.get('ok') != exp_f:
+            ctx.disagreement('Model.Mpi.ctrIdsMpiFlat vs ctr_ids_mpi(flat ids)', case)
         # arbitrary single pairs incl. out-of-range ones
         for p, o, m in zip(case['extra'], singles, resps[3:]):
             r, i = p
@@ -912,20 +904,11 @@ def prep_maxmean(ctx, case):
                     ctx.violation('striped_array_mean %r != mean of the whole array %r' % (res, float(exact)), case)
                     return
             if w > 1 and any(l.sum() > allv.sum() for l in locs):
-                ctx.tag('mean-assert-repaired')        # the code no longer asserts global_sum >= local_sum
-                return
+                ctx.tag('mean:a-local-sum-exceeds-the-global-sum')
             if 'ok' not in mn or Fraction(mn['ok'][0], mn['ok'][1]) != exact:
                 ctx.disagreement('Model.Mpi.stripedMean (%s) vs exact mean %s' % (mn, exact), case)
         else:
-            neg_local = any(l.sum() > allv.sum() for l in locs)
-            if omean.kinds == ['assertion'] and neg_local and w > 1:
-                ctx.violation('striped_array_mean raises AssertionError (global_sum >= local_sum) when a local '
-                              'sum exceeds the global sum, i.e. when another rank holds negative values',
-                              case, key='striped-mean-negative-local-sum')
-                if mn.get('error') != 'assertion':
-                    ctx.disagreement('Model.Mpi.stripedMean does not reproduce the assertion', case)
-            else:
-                ctx.violation('striped_array_mean failed: %s' % omean.describe(), case)
+            ctx.violation('striped_array_mean failed: %s' % omean.describe(), case)
     return reqs, finish
 
 
@@ -1149,46 +1132,26 @@ def prep_load(ctx, case):
         # the global lengths describe those rows, so that the reassembly routines can use them
         exp_len = [len(range(0, l, stride)) for l in L]
         exp_data = [np.concatenate([rows[t][::stride] for t in range(r, T, w)]).tolist() for r in range(w)]
-        key = None
-        bad = None
         if not out.ok:
-            bad = 'load_%s_as_striped failed: %s' % (fmt, out.describe())
-            if stride > 1 and fmt == 'npy' and out.kinds == ['assertion'] and exp_len != L:
-                key = 'load-npy-striped-stride'
-        else:
-            for r, (gl, d) in enumerate(out.results):
-                if d != exp_data[r]:
-                    bad = 'load_%s_as_striped: rank %d does not hold rows r, r+w, ... of the data' % (fmt, r)
-                    break
-                if gl != exp_len:
-                    bad = ('load_%s_as_striped(stride=%d): global lengths %s do not describe the loaded data %s'
-                           % (fmt, stride, gl, exp_len))
-                    if stride > 1 and gl == L:
-                        key = 'load-h5-striped-stride-lengths' if fmt == 'h5' else 'load-npy-striped-stride'
-                    break
-        if bad:
-            ctx.violation(bad, case, key=key)
-        # model (as written)
+            ctx.violation('load_%s_as_striped failed: %s' % (fmt, out.describe()), case)
+            return
+        for r, (gl, d) in enumerate(out.results):
+            if d != exp_data[r]:
+                ctx.violation('load_%s_as_striped: rank %d does not hold rows r, r+w, ... of the data' % (fmt, r), case)
+                return
+            if gl != exp_len:
+                ctx.violation('load_%s_as_striped(stride=%d): global lengths %s do not describe the loaded data %s'
+                              % (fmt, stride, gl, exp_len), case)
+                return
+        # model
         if exp_len != m['strided_lengths']:
             ctx.disagreement('Model.Mpi.everyNth vs row[::stride]', case)
             return
-        if bad and key is None:
-            return
-        if not bad and stride > 1 and exp_len != L:
-            ctx.tag('stride-lengths-repaired')         # the code no longer behaves as modelled for stride > 1
-            return
         for r in range(w):
             mr = m['ranks'][r]
-            if out.errors[r] is None:
-                gl, d = out.results[r]
-                if 'ok' not in mr or mr['ok']['lengths'] != gl or mr['ok']['data'] != d:
-                    ctx.disagreement('Model.Mpi.load%sStriped vs load_%s_as_striped on rank %d' % (fmt, fmt, r), case)
-                    return
-            elif _is_abort(out.errors[r]):
-                continue
-            elif mr.get('error') != KIND.get(type(out.errors[r]).__name__):
-                ctx.disagreement('Model.Mpi.load%sStriped (%s) vs load_%s_as_striped (%s) on rank %d'
-                                 % (fmt, mr, fmt, out.describe(), r), case)
+            gl, d = out.results[r]
+            if 'ok' not in mr or mr['ok']['lengths'] != gl or mr['ok']['data'] != d:
+                ctx.disagreement('Model.Mpi.load%sStriped vs load_%s_as_striped on rank %d' % (fmt, fmt, r), case)
                 return
     return reqs, finish
 
